@@ -388,6 +388,137 @@ def r07g(ctx, run):
     c15.r15b(ctx, run)
 
 
+def cast_samples():
+    from absint import Variant, Term
+    V = Variant
+    i32, u8, f64, ch, b = V("Ty::IInt", {"0": 32}), V("Ty::UInt", {"0": 8}), V("Ty::Float", {"0": 64}), V("Ty::Char"), V("Ty::Bool")
+    st = V("Ty::String")
+
+    def ptr(t, m=False):
+        return V("Ty::Pointer", {"mutable": m, "sub_ty": t})
+
+    def arr(t, n=3):
+        return V("Ty::ConcreteArray", {"size": n, "sub_ty": t})
+    var_a = V("Ty::EnumVariant", {"enum_uid": 2, "variant_name": Term("A"), "uid": 3, "sub_ty": i32, "discriminant": 0})
+    var_b = V("Ty::EnumVariant", {"enum_uid": 2, "variant_name": Term("B"), "uid": 4, "sub_ty": V("Ty::Void"), "discriminant": 1})
+    return {
+        "i32": i32, "u8": u8, "f64": f64, "char": ch, "bool": b, "str": st, "^char": ptr(ch), "^u8": ptr(u8), "^i32": ptr(i32), "^mut i32": ptr(i32, True),
+        "rawptr": V("Ty::RawPtr", {"mutable": False}), "mut rawptr": V("Ty::RawPtr", {"mutable": True}), "[]i32": V("Ty::Slice", {"sub_ty": i32}), "[]char": V("Ty::Slice", {"sub_ty": ch}),
+        "rawslice": V("Ty::RawSlice"), "[3]char": arr(ch), "[3]u8": arr(u8), "[3]i32": arr(i32), "[3]f64": arr(f64), "any": V("Ty::Any"), "nil": V("Ty::Nil"), "void": V("Ty::Void"),
+        "?i32": V("Ty::Optional", {"sub_ty": i32}), "?^i32": V("Ty::Optional", {"sub_ty": ptr(i32)}), "?f64": V("Ty::Optional", {"sub_ty": f64}),
+        "str!i32": V("Ty::ErrorUnion", {"error_ty": st, "payload_ty": i32}), "distinct i32": V("Ty::Distinct", {"uid": 1, "sub_ty": i32}), "distinct str": V("Ty::Distinct", {"uid": 5, "sub_ty": st}),
+        "E.A(i32)": var_a, "E.B": var_b, "enum E": V("Ty::Enum", {"uid": 2, "variants": [var_a, var_b]}),
+    }
+
+
+def r07h(ctx, run):
+    """every cast the checker accepts (Ty::can_cast_to, evaluated from its source) is one cast_into_memory can build: its dispatch, evaluated from its
+    source for the same pair, must not end in a panic!/unreachable!/failed assert (accepted without a diagnostic, then no executable)"""
+    import c12
+    from symint import SymInterp
+    from absint import Obj, Term, Variant, Panic, CannotEstablish, _Return
+    TY = "hir/src/common/ty.rs"
+    cm = ctx.syn.fn("cast_into_memory", "codegen/src/compiler/mod.rs")
+    ty_fns = {}
+    for f in ctx.syn.fns_in(TY):
+        if f.body is not None and not f.in_test and (f.qual.startswith("Ty::") or "absolute_intern_ty" in f.qual):
+            ty_fns.setdefault(f.qual.rsplit("::", 1)[-1], f)
+    NUM = ("IInt", "UInt", "Float", "Bool", "Char")
+    W = c12.World(ctx)
+
+    def is_ty(v):
+        return isinstance(v, Variant) and v.path.startswith("Ty::") if hasattr(v, "path") else (isinstance(v, Variant))
+
+    class CI(c12.NI):
+        def default_method(self, recv, m, args, e):
+            if isinstance(recv, Variant) and recv.last in ("Number", "Pointer", "VoidTy") and m in ("into_real_type", "is_pointer_type", "is_number_type"):
+                return Term(m, recv)
+            if isinstance(recv, Variant):
+                if m in ("as_ref", "deref", "clone", "into", "borrow"):
+                    return recv
+                if m in ("can_cast_to", "can_fit_into", "is_functionally_equivalent_to", "is_weak_replaceable_by", "max", "might_be_weak", "has_semantics_of"):
+                    return W.call(m, recv, list(args))
+                if m == "get_final_ty":
+                    a = recv
+                    while a.last in ("Distinct", "EnumVariant"):
+                        a = a.payload["sub_ty"]
+                    if a.last in NUM:
+                        return Variant("FinalTy::Number", {"0": Term("numty", a)})
+                    if a.last in ("Void", "Nil", "AlwaysJumps"):
+                        return Variant("FinalTy::Void")
+                    return Variant("FinalTy::Pointer", {"0": Term("ptr_ty")})
+                if m in ("enum_layout", "struct_layout", "size", "align", "stride", "align_shift", "to_type_id", "to_previous_type_id"):
+                    return Term(m, recv)
+                f = ty_fns.get(m)
+                if f is not None:
+                    return self.inline(f, args, recv=recv)
+            if recv is None or isinstance(recv, (Term, Obj)):
+                if m == "expect" and recv is None:
+                    raise Panic("expect on None")
+                return Term(m, recv)
+            return super().default_method(recv, m, args, e)
+
+        def eval(self, e, env):
+            if e["k"] == "try":
+                return self.eval(e["e"], env)
+            if e["k"] == "un" and e.get("op") == "*":
+                return self.eval(e["e"], env)
+            return super().eval(e, env)
+
+    def mk_assert(kind):
+        def f(i, e, env):
+            a = e.get("a", [])
+            try:
+                if kind == "assert" and a:
+                    v = i.eval(a[0], env)
+                    if v is False:
+                        raise Panic("assert!(%s) fails" % canon(a[0])[:60])
+                if kind == "assert_eq" and len(a) >= 2:
+                    x, y = i.eval(a[0], env), i.eval(a[1], env)
+                    if isinstance(x, (Variant, int, bool)) and isinstance(y, (Variant, int, bool)) and type(x) == type(y) and x != y:
+                        raise Panic("assert_eq!(%s, %s) fails" % (canon(a[0])[:30], canon(a[1])[:30]))
+            except CannotEstablish:
+                pass
+            return None
+        return f
+    helpers = ("cast_struct_to_struct", "cast_array_to_array", "create_nil_value", "optional_map", "error_union_map", "cast_payload_into_tagged_union", "cast_num",
+               "layout::padding_needed_for")
+    samples = cast_samples()
+    n_acc, n_all = 0, 0
+    for an, A in samples.items():
+        for bn, B in samples.items():
+            if an == bn:
+                continue
+            n_all += 1
+            try:
+                acc = W.call("can_cast_to", A, [B])
+            except (Panic, CannotEstablish) as c:
+                run.finding("Ty::can_cast_to", "cast-accept:%s->%s" % (an, bn), cm.file, cm.ln, "cannot establish whether the cast %s -> %s is accepted: %s" % (an, bn, getattr(c, "what", c)))
+                continue
+            if acc is not True:
+                continue
+            n_acc += 1
+            funcs = {h: (lambda i, a, h=h: Term(h)) for h in helpers}
+            funcs["cast_into_memory"] = lambda i, a: Term("recursive cast")
+            funcs["Some"] = lambda i, a: a[0]
+            funcs["MemFlags::trusted"] = lambda i, a: Term("trusted")
+            funcs["MemFlags::new"] = lambda i, a: Term("memflags")
+            it = CI(funcs=funcs, macros={"assert": mk_assert("assert"), "assert_eq": mk_assert("assert_eq"), "debug_assert": mk_assert("assert")})
+            it.world = None
+            env = {"meta_tys": Term("meta_tys"), "module": Term("module"), "builder": Term("builder"), "func_writer": Term("fw"), "ptr_ty": Term("ptr_ty"), "val": Term("val"),
+                   "cast_from": A, "cast_to": B, "memory": None}
+            try:
+                it.run_fn(cm, env)
+                run.ok(cm.site(), "accepted cast %s -> %s is built" % (an, bn))
+            except Panic as p_:
+                run.finding("cast_into_memory", "accepted-cast-unbuildable:%s->%s" % (an, bn), cm.file, cm.ln,
+                            "the cast %s -> %s is accepted by Ty::can_cast_to but cast_into_memory ends in %s: no diagnostic, no executable (the compiler panics)" % (an, bn, p_.what))
+            except CannotEstablish as c:
+                run.finding("cast_into_memory", "cast-build:%s->%s" % (an, bn), cm.file, cm.ln, "cannot establish how the accepted cast %s -> %s is built: %s" % (an, bn, getattr(c, "what", c)))
+    if n_acc < 100:
+        raise LookupError("accepted casts among the sample pairs: %d of %d" % (n_acc, n_all))
+
+
 def r07f(ctx, run):
     import c12
     c12.noeval_law(ctx, run, clauses=("wrapped",))
@@ -399,6 +530,7 @@ def rules(ctx):
         Rule("R07.b", "every TyDiagnostic literal names its expression (6+1 enumerated exceptions)", 75, r07b),
         Rule("R07.d", "operator/type combinations the checker accepts are ones the code generator has an arm for (belief vs use, across crates)", 80, r07d),
         Rule("R07.e", "every path that finishes a global's body passes the GlobalNotConst test (must-pass-through on MIR)", 1, r07e),
+        Rule("R07.h", "every cast Ty::can_cast_to accepts is one cast_into_memory can build (both evaluated from source over 31 x 30 type pairs)", 100, r07h),
         Rule("R07.g", "get_const's classification per expression kind: Unknown (= stay silent) only where an error was already reported (shared with C15 R15.b)", 60, r07g),
         Rule("R07.f", "the common type of a branch that always jumps and any other branch never wraps `noeval` in a constructor (no code-generator support, no diagnostic)", 60, r07f),
         Rule("R07.c", "is_safe_to_compile: complete error set, membership first, Missing/unknown/unlabelled unsafe; severity mapping", 11, r07c),
